@@ -45,22 +45,21 @@ Proof.
     rewrite E. cbn [mon_run fold_left].
     assert (Hs : mstep m o = m).
     { destruct o; try discriminate; try reflexivity.
-      (* BDeliver *)
-      cbn [mstep].
-      destruct (m_granted m) eqn:G.
-      - change (flag V_DELIVER_UNTRUSTED true m) with m.
-        destruct (m_setup m) eqn:S; [reflexivity|].
-        exfalso.
-        assert (B : N.testbit (m_viol (mstep m BDeliver)) V_DELIVER_BEFORE_SETUP = true).
-        { cbn [mstep]. rewrite G. change (flag V_DELIVER_UNTRUSTED true m) with m.
-          rewrite S. rewrite flag_bit. cbn. apply orb_true_r. }
-        pose proof (mon_run_mono tr _ _ B) as K. unfold mon_run in K.
-        rewrite (zero_no_bit _ _ Hz) in K. discriminate.
-      - exfalso.
-        assert (B : N.testbit (m_viol (mstep m BDeliver)) V_DELIVER_UNTRUSTED = true).
-        { cbn [mstep]. rewrite G. apply flag_mono. rewrite flag_bit. cbn. apply orb_true_r. }
-        pose proof (mon_run_mono tr _ _ B) as K. unfold mon_run in K.
+      (* BDeliver: three flags, each of them raised would contradict the clean run *)
+      assert (D : mstep m BDeliver =
+                  flag V_DELIVER_BEFORE_COMPLETE (m_complete m)
+                    (flag V_DELIVER_BEFORE_SETUP (m_setup m) (flag V_DELIVER_UNTRUSTED (m_granted m) m))).
+      { cbn [mstep]. cbv zeta. destruct (m_granted m); cbn; destruct (m_setup m); cbn; reflexivity. }
+      assert (Bad : forall c, N.testbit (m_viol (mstep m BDeliver)) c = true -> False).
+      { intros c B. pose proof (mon_run_mono tr _ _ B) as K. unfold mon_run in K.
         rewrite (zero_no_bit _ _ Hz) in K. discriminate. }
+      destruct (m_granted m) eqn:G.
+      - destruct (m_setup m) eqn:S.
+        + destruct (m_complete m) eqn:Cm.
+          * rewrite D. reflexivity.
+          * exfalso. apply (Bad V_DELIVER_BEFORE_COMPLETE). rewrite D, flag_bit. cbn. apply orb_true_r.
+        + exfalso. apply (Bad V_DELIVER_BEFORE_SETUP). rewrite D. apply flag_mono. rewrite flag_bit. cbn. apply orb_true_r.
+      - exfalso. apply (Bad V_DELIVER_UNTRUSTED). rewrite D. apply flag_mono. apply flag_mono. rewrite flag_bit. cbn. apply orb_true_r. }
     rewrite Hs. apply IH. rewrite <- Hs. exact Hz.
   - assert (E : erase (o :: tr) = o :: erase tr) by (unfold erase; cbn [filter]; rewrite Er; reflexivity).
     rewrite E. cbn [mon_run fold_left]. apply IH. exact Hz.
